@@ -253,6 +253,17 @@ def broadcast (s : St) (m : InMsg) : St :=
 
 /-! ### events -/
 
+/-- `session.ShouldWaitVideoKeyFrame = false` (ghost: a waiting subscriber is live from publish index `n`) -/
+def stopWaiting (n : Nat) (x : Sub) : Sub :=
+  if x.waitKey then { x with waitKey := false, start := if x.fresh then none else some n } else x
+
+/-- the state changes of `delIn` after the merge writer was flushed -/
+def afterDelIn (s1 : St) (n : Nat) : St :=
+  { s1 with hasIn := false, recording := none, videoCodecSet := false,
+            rtmpGop := GopCache.clear s1.rtmpGop, flvGop := GopCache.clear s1.flvGop,
+            rtmpSubs := s1.rtmpSubs.map (stopWaiting n),
+            flvSubs := s1.flvSubs.map (stopWaiting n) }
+
 def step (s : St) : Ev → St
   | .addPub =>
     if s.hasIn then s else
@@ -262,8 +273,10 @@ def step (s : St) : Ev → St
     else s1
   | .delPub =>
     if !s.hasIn then s else
-    { s with hasIn := false, recording := none,
-             rtmpGop := GopCache.clear s.rtmpGop, flvGop := GopCache.clear s.flvGop }
+    -- delIn: what the merge writer still holds is flushed; subscribers that stay stop waiting for the
+    -- finished input's key frame; caches, recording and codec info are reset
+    let s1 := if s.cfg.mergeSize > 0 then s.mergeFlush else s
+    afterDelIn s1 s.pubLog.length
   | .msg m => if s.hasIn then broadcast s m else s
   | .join .rtmp id =>
     if s.usedIds.contains id then s else
